@@ -28,6 +28,7 @@
 #include "ddiff.c"
 #undef main
 
+#define RD_OF_INST(u)	((int)(((u) + 134774LL * 86400) / 86400))
 #define INST_MIN	((int64_t)(0 - 134774) * 86400)			/* 1601-01-01T00:00:00 */
 #define INST_MAX	((int64_t)(RC_NDAYS - 134774) * 86400 - 1)	/* 4095-12-31T23:59:59 */
 
@@ -90,8 +91,9 @@ bday_rd(int i)
 	return rc_rd(bdays[i][0], bdays[i][1], bdays[i][2]);
 }
 
-static const int add_reps[] = {H_YMD, H_YWD, H_YD, H_YMCW, H_DAISY, H_SEXY};
-#define NADDREP	6
+static const int add_reps[] = {H_YMD, H_YWD, H_YD, H_YMCW, H_DAISY, H_SEXY, H_BIZDA};
+#define NADDREP	7
+#define NSEQREP	6	/* SEQ leaves the bizda-held values out: an intermediate value on a weekend has no name there */
 
 static void
 mk_cmd_add(char *cmd, size_t csz, int h, const char *text, const char *durtext)
@@ -185,8 +187,18 @@ judge_add(int h, int rd, int sod, int di, int replay)
 		}
 		if (why) {
 			int64_t a = d->secs < 0 ? -d->secs : d->secs;
-			snprintf(key, sizeof(key), "add rep=%s unit=%c sign=%c span=%s: %s", held_name[h], unit_ch[d->unit], d->neg ? '-' : '+',
-				 a < 86400 ? "under-a-day" : a == 86400 ? "one-day" : "over-a-day", why);
+			/* a bizda-held value cannot name a weekend day; such results are kept apart
+			 * (-DC11_SKIP_BIZDA_WEEKEND leaves them out: the reading C03/C07 use for day arithmetic) */
+			int wkend = h == H_BIZDA && !rc_get(RD_OF_INST(want))->isbd;
+#if defined C11_SKIP_BIZDA_WEEKEND
+			if (wkend) {
+				EX_CTR(c_skipw, "skipped:bizda-held value whose result falls on a weekend (no name in that calendar)");
+				++*c_skipw;
+				continue;
+			}
+#endif
+			snprintf(key, sizeof(key), "add rep=%s unit=%c sign=%c span=%s%s: %s", held_name[h], unit_ch[d->unit], d->neg ? '-' : '+',
+				 a < 86400 ? "under-a-day" : a == 86400 ? "one-day" : "over-a-day", wkend ? " result-on-weekend" : "", why);
 			snprintf(cas, sizeof(cas), "ADD %d %d %d %d", h, rd, sod, k);
 			mk_cmd_add(cmd, sizeof(cmd), h, text, d->text);
 			ex_viol(key, (double)a, cas, cmd[0] ? cmd : NULL,
@@ -444,6 +456,8 @@ struct bind_s {
 static const struct bind_s binds[] = {
 	{"dadd", H_YMD, 2, "+1s"}, {"dadd", H_YMD, 2, "-86401s"}, {"dadd", H_YWD, 3, "+61m"}, {"dadd", H_YMCW, 3, "-25h"},
 	{"dadd", H_YD, 2, "+3601s"}, {"dadd", H_SEXYFMT, 4, "+2147483647s"}, {"dconv", H_YMD, 1, NULL}, {"dconv", H_YWD, 3, NULL},
+	/* negative epoch counts as stdin lines (1969-12-31: -86400 .. -1) */
+	{"dconv", H_SEXYFMT, 1, NULL}, {"dadd", H_SEXYFMT, 1, "+1s"},
 	/* thorough only from here; -i %s runs avoid 1970-01-01 (the count 0 is rejected, see notes/C11-defects.md, and a
 	 * skipped line would shift the comparison) and negative durations: `dadd -i %s -1s' reads "-1s" as the
 	 * date @-1 (trailing text is not refused) and then takes stdin for durations -- parsing is C09's business */
@@ -452,7 +466,7 @@ static const struct bind_s binds[] = {
 	{"dconv", H_YMCW, 2, NULL}, {"dconv", H_YD, 5, NULL}, {"dconv", H_YMD, 0, NULL}, {"dconv", H_YMD, 5, NULL},
 	{"ddiff", H_YMD, 2, "2012-03-01T00:00:00"}, {"ddiff", H_YWD, 3, "2013-W01-2T12:00:00"}, {"ddiff", H_YMD, 1, "1970-01-01T00:00:00"},
 };
-#define NBIND_QUICK	8
+#define NBIND_QUICK	10
 #define NBIND		((int)(sizeof(binds) / sizeof(*binds)))
 
 static void
@@ -500,7 +514,8 @@ do_bind(int k)
 		return;
 	}
 	++*c_bind;
-	snprintf(key, sizeof(key), "binding %s rep=%s %s", b->tool, held_name[b->h], b->arg ? b->arg : "-f %s");
+	snprintf(key, sizeof(key), "binding %s rep=%s %s%s", b->tool, held_name[b->h], b->arg ? b->arg : "-f %s",
+		 (b->h == H_SEXY || b->h == H_SEXYFMT) && rc_get(rd)->unixd < 0 ? " negative-counts-on-stdin" : "");
 	if ((f = fopen(fout, "r")) == NULL) {
 		ex_viol(key, 0, "", cmd, "no output from the binary");
 		return;
@@ -593,6 +608,10 @@ main(int argc, char *argv[])
 			k = a[3] == 2 ? a[4] * NSEQA + a[5] : nseq2 + (a[4] * NSEQA + a[5]) * NSEQA + b7[0];
 			return ex_replay_result(judge_seq(a[0], a[1], a[2], k, k + 1, 1), "sequence of %d durations rep=%s", a[3], held_name[a[0]]);
 		}
+		if (!strncmp(ex.cas, "ZEP ", 4) && sscanf(ex.cas + 4, "%d %d %d %d", a, a + 1, a + 2, a + 3) == 4 &&
+		    a[0] >= 0 && a[0] < NSEQZ && rc_get(a[1]) && a[2] >= 0 && a[2] < 86400) {
+			return ex_replay_result(judge_zep(a[0], a[1], a[2], a[3] != 0, 1), "epoch seconds under zone %s", seq_zones[a[0]]);
+		}
 		if (!strncmp(ex.cas, "SEQZ ", 5) && sscanf(ex.cas + 5, "%d %d %d", a, a + 1, a + 2) == 3 &&
 		    a[0] >= 0 && a[0] < NSEQZ && a[1] >= 0 && a[1] < NSEQZT && a[2] >= 0 && a[2] < NSEQA * NSEQA) {
 			mk_seqs(0);
@@ -632,12 +651,14 @@ main(int argc, char *argv[])
 		"the next; class keys name the shape of the steps (x = crosses a midnight, d = exact multiple of a day incl. 0, n = neither), not their "
 		"values; zone variants: --from-zone values that cross midnight on their way to UTC (the UTC start is the implementation's own single "
 		"conversion, zone correctness is C12's) and --zone output (expected text = single conversion of the model's result). "
+		"ZEP: seconds since the epoch name an instant: %%s printed under --zone must be the instant's count, %%s and @N read under --from-zone "
+		"must give the instant of that count (library path dtz_enrichz / dt_io_strpdt with the zone, and the dconv binary). "
 		"DIFF: what ddiff A B -f %%S prints (ddiff.c's determine_durfmt/determine_durtype/dt_dtdiff/__strfdtdur) must be Unix(B) - Unix(A). "
 		"non-trivial = addition whose result lies on another day than its start; difference whose clock part has the other sign than its day part");
 	ex_meta("bound", "ADD: %d boundary days x 86,400 seconds x %d durations (+-{1,59,60,61,3599,3600,3601,86399,86400,86401,172800,604800,31536000,2^31-1} "
-		"x {s,m,h}) x 6 held representations (ymd ywd yd ymcw daisy epoch); SEAM: 911,280 days x {00:00:00,23:59:59} x {+-1s,+-86400s} x 6; "
+		"x {s,m,h}) x 7 held representations (ymd ywd yd ymcw daisy epoch bizda[business days]); SEAM: 911,280 days x {00:00:00,23:59:59} x {+-1s,+-86400s} x 7; "
 		"MIL: 911,280 days x {ymd,ywd,ymcw} x 4 checks; EPOCH: 911,280 days x {23:59:59 before, 00:00:00, 00:00:01} and %d days x 86,400 s, "
-		"2 inputs + 7 outputs each; SEQ: %d boundary days x %d times of day (00:00:00 00:00:01 00:59:59 01:00:00 12:00:00 22:00:00 23:00:00 23:59:59%s) "
+		"2 inputs + 7 outputs each; ZEP: the SEQ zones x boundary days x 48 instants (every hour's first and last second), binaries on 3 instants of 6 days; SEQ: %d boundary days x %d times of day (00:00:00 00:00:01 00:59:59 01:00:00 12:00:00 22:00:00 23:00:00 23:59:59%s) "
 		"x 6 representations x all %d ordered pairs of the %d-duration alphabet (+1s -1s +2h -2h +90m -90m +24h -24h +48h -48h +1440m +86400s -86400s +0s +3600s +25h -25h)%s; "
 		"--from-zone at library level: %d zones x 8 local times x all pairs; dadd binary: the same zones and times x the 33 pairs containing +24h x {--from-zone, --zone}; DIFF: (40 seam days x 7 times)^2 ordered pairs x 6 representations, and 911,280 days x 4 neighbour pairs x 3",
 		nbday, NDUR, nbday, nbday, nseq_tods, ex.thorough ? " and every full minute" : "", nseq2, NSEQA,
@@ -666,7 +687,7 @@ main(int argc, char *argv[])
 	/* SEQ: slice = (boundary day, representation, block of times) */
 	for (int bd = 0; bd < nbday; bd++) {
 		int rd = bday_rd(bd);
-		for (int r = 0; r < NADDREP; r++) {
+		for (int r = 0; r < NSEQREP; r++) {
 			for (int t0 = 0; t0 < nseq_tods; t0 += 64, slice++) {
 				if (!ex_mine(slice) || ex_expired()) {
 					continue;
@@ -696,6 +717,26 @@ main(int argc, char *argv[])
 			}
 			ex_sample("SEQ zone %s local time second %d: all %d pairs after --from-zone, dadd binary on the pairs with +24h", seq_zones[zi],
 				  seq_ztod[ti], nseq2);
+		}
+	}
+	/* ZEP: %s / @N under --zone / --from-zone; slice = (zone, boundary day) */
+	for (int zi = 0; zi < (ex.thorough ? NSEQZ : NSEQZ_QUICK); zi++) {
+		for (int bd = 0; bd < nbday; bd++, slice++) {
+			if (!ex_mine(slice) || ex_expired()) {
+				continue;
+			}
+			for (int hr = 0; hr < 24; hr++) {
+				++*c_states;
+				judge_zep(zi, bday_rd(bd), hr * 3600, 0, 0);
+				judge_zep(zi, bday_rd(bd), hr * 3600 + 3599, 0, 0);
+			}
+			/* the binaries on the seam hours of the day */
+			if (bd < NBDAY_QUICK) {
+				judge_zep(zi, bday_rd(bd), 0, 1, 0);
+				judge_zep(zi, bday_rd(bd), 12 * 3600, 1, 0);
+				judge_zep(zi, bday_rd(bd), 86399, 1, 0);
+			}
+			++*c_traces;
 		}
 	}
 	/* SEAM: slice = year */
